@@ -20,7 +20,7 @@ SPEND = ['spend_missing', 'spend_spent', 'spend_other_fork', 'spend_same_block',
          'dup_ref_in_block', 'null_ref', 'sig_other_key', 'sig_other_message', 'outputs_changed',
          'input_added', 'input_removed', 'inputs_reordered', 'sigs_swapped', 'placeholder_sig',
          'coinbasedata_sig', 'junk_sig', 'low_height_steal', 'second_sig_junk', 'second_sig_copy', 'second_sig_other_key',
-         'replayed_sig_new_outputs', 'spend_noncurve_key_output']
+         'replayed_sig_new_outputs', 'spend_noncurve_key_output', 'spend_zero_key_forged_sig']
 VALUE = ['reward_plus_one', 'reward_plus_other_fee', 'out_zero', 'out_max_plus_one', 'outs_sum_over_max',
          'outs_exceed_inputs', 'out_2_64_minus_1', 'two_rewards', 'reward_not_first', 'reward_two_inputs',
          'reward_real_ref', 'low_height_mint', 'outs_exceed_inputs_comp', 'reward_split_over', 'reward_prev_era']
@@ -381,6 +381,31 @@ def f_spend_noncurve_key_output(sim, rb, op, d, a, b):
     ref = cands[a % len(cands)]
     sim.res.bump('probe:spend_of_noncurve_key_output')
     _add_tx(d, make_tx([ref], [(rb.utxo[ref][0], key(b % N_KEYS))], [key(b % N_KEYS)]), 0)
+
+
+def f_spend_zero_key_forged_sig(sim, rb, op, d, a, b):
+    """Spend of an output paying the all-zero key with a signature for which the textbook verification equation holds if
+    the degenerate 'point' (0, 0) is let through (r = (kG).x, s = e/k): nobody holds a private key for it."""
+    import hashlib
+    import ecdsa
+    from ecdsa.util import sigencode_string
+    from refmodel import rules
+    from skepticoin.signing import SECP256k1Signature
+    cands = sorted(r for r, (v, pub) in rb.utxo.items() if pub == b'\x00' * 64 and r not in d['used'])
+    if not cands:
+        return False
+    ref = cands[a % len(cands)]
+    tx0 = make_tx([ref], [(rb.utxo[ref][0], key(b % N_KEYS))], [None])
+    msg = rules.blank_message(tx0)
+    curve = ecdsa.SECP256k1
+    n = curve.order
+    e = int.from_bytes(hashlib.sha1(msg).digest(), 'big')
+    k = 2 + a % 50
+    r_ = (k * curve.generator).x() % n
+    s_ = (e * pow(k, -1, n)) % n
+    sig = SECP256k1Signature(sigencode_string(r_, s_, n))
+    sim.res.bump('probe:spend_of_zero_key_output_with_crafted_signature')
+    _add_tx(d, make_tx([ref], [(rb.utxo[ref][0], key(b % N_KEYS))], [sig]), 0)
 
 
 LOW_HEIGHTS = [7, 1, 499, 162_999, 100_001, 163_000 - 3]
